@@ -252,6 +252,7 @@ type e2Ctx struct {
 	undec   []string
 	// decoder: mapping of callee receiver to caller cell
 	root string
+	phiStack []*ssa.Phi
 }
 
 func postDominators(fn *ssa.Function) map[*ssa.BasicBlock]*ssa.BasicBlock {
@@ -827,6 +828,24 @@ func (x *e2Ctx) pathOf(v ssa.Value, d int) string {
 	case *ssa.MakeInterface:
 		return x.pathOf(t.X, d+1)
 	case *ssa.Slice:
+		if al, ok := t.X.(*ssa.Alloc); ok && x.callArgs && (al.Comment == "varargs" || al.Comment == "slicelit") {
+			items := map[int64]string{}
+			for _, ref := range *al.Referrers() {
+				if ia, ok := ref.(*ssa.IndexAddr); ok {
+					k, _ := intConst(ia.Index)
+					for _, r2 := range *ia.Referrers() {
+						if st, ok := r2.(*ssa.Store); ok {
+							items[k] = x.pathOf(st.Val, d+1)
+						}
+					}
+				}
+			}
+			var out []string
+			for i := int64(0); i < int64(len(items)); i++ {
+				out = append(out, items[i])
+			}
+			return "[" + strings.Join(out, " ") + "]"
+		}
 		return x.pathOf(t.X, d+1)
 	case *ssa.TypeAssert:
 		return x.pathOf(t.X, d+1) + ".(" + typeTag(t.AssertedType) + ")"
@@ -835,8 +854,32 @@ func (x *e2Ctx) pathOf(v ssa.Value, d int) string {
 	case *ssa.MakeSlice:
 		return "make(" + x.pathOf(t.Len, d+1) + ")"
 	case *ssa.Phi:
-		if x.namedPhis && t.Comment != "" {
-			return "φ" + t.Comment
+		if x.namedPhis {
+			// by content, not by the variable's name: φ(edge|edge…), a reference back to a φ being rendered is "φ"
+			for _, q := range x.phiStack {
+				if q == t {
+					return "φ"
+				}
+			}
+			if len(x.phiStack) >= 3 {
+				return "φ…"
+			}
+			x.phiStack = append(x.phiStack, t)
+			var ps []string
+			seen := map[string]bool{}
+			for _, e := range t.Edges {
+				p := x.pathOf(e, d+1)
+				if !seen[p] {
+					seen[p] = true
+					ps = append(ps, p)
+				}
+			}
+			x.phiStack = x.phiStack[:len(x.phiStack)-1]
+			sort.Strings(ps)
+			if len(ps) == 1 {
+				return ps[0]
+			}
+			return "φ(" + strings.Join(ps, "|") + ")"
 		}
 		var ps []string
 		seen := map[string]bool{}
@@ -857,6 +900,13 @@ func (x *e2Ctx) pathOf(v ssa.Value, d int) string {
 		cc := t.Common()
 		if isBuiltinCall(cc, "len") {
 			return "len(" + x.pathOf(cc.Args[0], d+1) + ")"
+		}
+		if b, isB := cc.Value.(*ssa.Builtin); isB && x.callArgs {
+			var as []string
+			for _, a := range cc.Args {
+				as = append(as, x.pathOf(a, d+1))
+			}
+			return b.Name() + "(" + strings.Join(as, ",") + ")"
 		}
 		if sf := cc.StaticCallee(); sf != nil && inUio(sf) && strings.HasPrefix(sf.Name(), "Read") {
 			return "prev" + strings.TrimPrefix(sf.Name(), "Read")
@@ -880,6 +930,9 @@ func (x *e2Ctx) pathOf(v ssa.Value, d int) string {
 		}
 		if sf := cc.StaticCallee(); sf != nil && len(cc.Args) > 0 {
 			if x.callArgs {
+				if s, ok := x.expandPureHelper(t, d); ok {
+					return s
+				}
 				return sf.Name() + "(" + constArgsAll(x, cc.Args, d) + ")"
 			}
 			return x.pathOf(cc.Args[0], d+1) + "." + sf.Name() + "()"
@@ -897,6 +950,51 @@ func (x *e2Ctx) pathOf(v ssa.Value, d int) string {
 		return "global:" + t.Name()
 	}
 	return "?" + fmt.Sprintf("%T", v)
+}
+
+// expandPureHelper (E6 rendering): a call of an unexported in-module function with one return, no stores
+// outside its locals and no dynamic calls is rendered as the value it returns
+func (x *e2Ctx) expandPureHelper(cl *ssa.Call, d int) (string, bool) {
+	sf := cl.Call.StaticCallee()
+	if sf == nil || !inModule(sf) || sf.Blocks == nil || token.IsExported(sf.Name()) || sf.Parent() != nil || x.depth >= 3 || sf.Signature.Recv() != nil {
+		return "", false
+	}
+	rets := returnsOf(sf)
+	if len(rets) != 1 || len(rets[0].Results) != 1 {
+		return "", false
+	}
+	pure := true
+	allInstrs(sf, func(in ssa.Instruction) {
+		switch t := in.(type) {
+		case *ssa.Store:
+			if al, _, ok := addrPath(t.Addr); !ok || al == nil {
+				if ia, ok2 := t.Addr.(*ssa.IndexAddr); ok2 {
+					if _, isAl := ia.X.(*ssa.Alloc); isAl {
+						return
+					}
+				}
+				pure = false
+			}
+		case *ssa.MapUpdate, *ssa.Send, *ssa.Go, *ssa.Defer, *ssa.Panic:
+			pure = false
+		case *ssa.Call:
+			if t.Call.IsInvoke() {
+				pure = false
+			} else if _, isB := t.Call.Value.(*ssa.Builtin); !isB && t.Call.StaticCallee() == nil {
+				pure = false
+			}
+		}
+	})
+	if !pure {
+		return "", false
+	}
+	sub := &e2Ctx{c: x.c, fn: sf, lex: map[ssa.Value]bool{}, enc: true, subst: map[string]string{}, visited: map[*ssa.BasicBlock]int{}, namedPhis: x.namedPhis, callArgs: x.callArgs, fullArgs: x.fullArgs, depth: x.depth + 1}
+	for i, p := range sf.Params {
+		if i < len(cl.Call.Args) {
+			sub.subst[x.c.Sx().Of(p).String()] = x.apply(x.pathOf(cl.Call.Args[i], d+1))
+		}
+	}
+	return sub.apply(sub.pathOf(rets[0].Results[0], 0)), true
 }
 
 func joinPath(a, b string) string {
